@@ -11,6 +11,29 @@ def run(ctx):
     n = 60 if ctx.quick() else 1500
     cases = ic.gen_line_curve(ctx, n) + ic.gen_planted(ctx, n) + ic.gen_shared_ends(ctx, n // 2)
     sweep(ctx, "geometric_reported_pairs_are_real", cases, [("Curve.intersect", ic.intersect_args("GEOMETRIC"))], ic.judge_c02)
+    # the same certified line-curve pairs presented TINY (scaled by 2^-27 and 2^-30, exact) and in both argument orders: every curved
+    # piece then has a linearization error below the ABSOLUTE threshold 2^-26 from the start, so the pair goes straight to the
+    # "both linearized" end game - which must still refine with Newton unless the error is exactly zero (seed c02-5 treated a
+    # nearly straight FIRST curve as a line in the compiled check_lines); and nearly straight O(1) arcs (bow 2^-28 .. 2^-34)
+    # against an exact segment
+    from fractions import Fraction as F
+    tiny = []
+    for c in ic.gen_line_curve(ctx, 30 if ctx.quick() else 600):
+        for k in (27, 30):
+            sc = F(1, 2 ** k)
+            a = [[x * sc for x in r] for r in c["c1"]]
+            b = [[x * sc for x in r] for r in c["c2"]]
+            tiny.append(dict(c, c1=a, c2=b, kind="tiny"))
+            tiny.append(dict(c, c1=b, c2=a, expected=[(t, s_) for (s_, t) in c.get("expected", [])], kind="tiny-swapped"))
+    for _ in range(20 if ctx.quick() else 300):
+        h = F(1, 2 ** ctx.rng.choice([28, 30, 34])) * ctx.rng.choice([1, -1])
+        n = ctx.rng.choice([2, 4])
+        arc = [[F(i, n) for i in range(n + 1)], [F(0)] + [h * ctx.rng.randint(1, 3) for _ in range(n - 1)] + [F(0)]]
+        x0, x1 = F(ctx.rng.randint(2, 6), 16), F(ctx.rng.randint(7, 13), 16)
+        seg = [[x0, x1], [F(-1, 4), F(1, 2)]]
+        tiny.append({"c1": arc, "c2": seg, "kind": "nearly-straight-arc-first"})
+        tiny.append({"c1": seg, "c2": arc, "kind": "nearly-straight-arc-second"})
+    sweep(ctx, "tiny_and_nearly_straight_pairs_are_real", tiny, [("Curve.intersect", ic.intersect_args("GEOMETRIC"))], ic.judge_c02)
     # overlapping sub-arcs of one parent curve (coincident results): the reported end points of the shared arc must be genuine
     # common points too (generator of C20; the judge here is genuineness and range only)
     from checks import c20 as _c20
